@@ -82,6 +82,7 @@ struct Ctx {
     expanded: PathBuf,
     files: BTreeMap<String, SrcFile>,
     record: Vec<Value>,
+    splits: String,
 }
 
 impl Ctx {
@@ -280,6 +281,7 @@ struct HoleDirs {
     self_name: Option<String>,
     nosig: bool,
     probe: Option<String>,
+    split: Option<BTreeMap<String, String>>,
 }
 
 fn parse_quoted(s: &str) -> R<(String, &str)> {
@@ -308,7 +310,7 @@ fn parse_quoted(s: &str) -> R<(String, &str)> {
 
 fn parse_dirs(lines: &[&str]) -> R<HoleDirs> {
     // join continuation lines: a directive starts with a keyword at line start (after trim)
-    let kws = ["subst ", "closure ", "loop ", "before ", "after ", "replace ", "selfname ", "nosig", "probe ", "hint "];
+    let kws = ["subst ", "closure ", "loop ", "before ", "after ", "replace ", "selfname ", "nosig", "probe ", "hint ", "split "];
     let mut items: Vec<String> = Vec::new();
     for l in lines {
         let t = l.trim();
@@ -335,6 +337,24 @@ fn parse_dirs(lines: &[&str]) -> R<HoleDirs> {
             }
         } else if let Some(rest) = it.strip_prefix("probe ").or_else(|| it.strip_prefix("hint ")) {
             d.probe = Some(rest.trim().to_string());
+        } else if let Some(rest) = it.strip_prefix("split ") {
+            // split enum=E params="..." args="..." ret="..."
+            let mut m = BTreeMap::new();
+            let mut rest = rest.trim();
+            while !rest.is_empty() {
+                let (k, r) = rest.split_once('=').ok_or_else(|| Bail(format!("bad split directive near `{rest}`")))?;
+                let r = r.trim_start();
+                if r.starts_with('"') {
+                    let (v, r2) = parse_quoted(r)?;
+                    m.insert(k.trim().to_string(), v);
+                    rest = r2.trim_start();
+                } else {
+                    let (v, r2) = r.split_once(char::is_whitespace).unwrap_or((r, ""));
+                    m.insert(k.trim().to_string(), v.to_string());
+                    rest = r2.trim_start();
+                }
+            }
+            d.split = Some(m);
         } else if let Some(rest) = it.strip_prefix("selfname ") {
             d.self_name = Some(rest.trim().to_string());
         } else if let Some(rest) = it.strip_prefix("closure ") {
@@ -629,6 +649,7 @@ fn transform_body(
     f: &FnRef,
     dirs: &HoleDirs,
     fired: &mut Vec<String>,
+    force_this: Option<&str>,
 ) -> R<String> {
     let block = f.block()?;
     let (lo, hi) = range(block.span());
@@ -664,8 +685,10 @@ fn transform_body(
             if a < lo || b > hi || a == b {
                 return;
             }
-            if mut_self && s == "self" {
+            if (mut_self || force_this.is_some()) && s == "self" {
                 edits.push(Edit { start: a, end: b, text: this.clone() });
+            } else if force_this.is_some() && s == "Self" {
+                edits.push(Edit { start: a, end: b, text: force_this.unwrap_or("Self").to_string() });
             } else if s == "exec" {
                 edits.push(Edit { start: a, end: b, text: "r#exec".into() });
                 fired.push(format!("T4 exec@{}", id.span().start().line));
@@ -898,6 +921,23 @@ fn extract_item(ctx: &mut Ctx, rel: &str, kind: &str, name: &str, opts: &str) ->
             a.1 = None;
         }
     }
+    // `derive=A,B`: keep exactly these (they must be present in the source derive list)
+    if let Some(want) = opts.split_whitespace().find_map(|o| o.strip_prefix("derive=")) {
+        let want: Vec<&str> = want.split(',').collect();
+        for a in &mut attrs {
+            if let Some(text) = &a.1 {
+                if text.starts_with("#[derive(") {
+                    let have: Vec<&str> = text["#[derive(".len()..text.len() - 2].split(", ").collect();
+                    for w in &want {
+                        if !have.contains(w) {
+                            return bail(format!("lost anchor: {kind} {name} no longer derives {w}"));
+                        }
+                    }
+                    a.1 = Some(format!("#[derive({})]", want.join(", ")));
+                }
+            }
+        }
+    }
     for sp in ac.idents {
         attrs.push((sp, Some("r#exec".into())));
         fired.push("T4 exec".into());
@@ -964,13 +1004,40 @@ fn fill_hole(ctx: &mut Ctx, template_name: &str, tpl: &str, hole_start: usize, h
     let f = find_fn(&src.ast, &container, name)?;
     let mut fired: Vec<String> = Vec::new();
     let real = check_sig(template_name, tpl, hole_start, name, &f, &dirs.subst, dirs.nosig, &mut fired, rel, &container)?;
-    let body = transform_body(src, &f, &dirs, &mut fired)?;
+    let body = transform_body(src, &f, &dirs, &mut fired, None)?;
+    // per-variant obligation split (same real body, extra precondition `this is V`): localises failures
+    let mut split_text = String::new();
+    if let Some(sp) = &dirs.split {
+        let en = sp.get("enum").cloned().unwrap_or_default();
+        let params = sp.get("params").cloned().unwrap_or_default();
+        let args = sp.get("args").cloned().unwrap_or_default();
+        let ret = sp.get("ret").cloned().unwrap_or_default();
+        let mut items = Vec::new();
+        all_items(&src.ast.items, &mut items);
+        let mut variants: Vec<String> = Vec::new();
+        for it in items {
+            if let syn::Item::Enum(e) = it {
+                if e.ident == en {
+                    variants = e.variants.iter().map(|v| v.ident.to_string()).collect();
+                }
+            }
+        }
+        if variants.is_empty() {
+            return bail(format!("lost anchor: enum {en} for split not found in {rel}"));
+        }
+        let mut f2 = Vec::new();
+        let b2 = transform_body(src, &f, &dirs, &mut f2, Some(&en))?;
+        for v in variants {
+            let _ = write!(split_text, "\n#[verifier::spinoff_prover]\nfn {name}__{en}__{v}(this: &{en}, {params}) -> (r: {ret})\n    requires *this is {v}, this.pre({args}),\n    ensures this.post({args}, r),\n{b2}\n");
+        }
+    }
     let sp = f.span();
     let (a, b) = range(sp);
     let rec = json!({"kind":"fn","file":rel,"container":container,"fn":name,
         "lines":[sp.start().line, sp.end().line],"hash":fnv(&src.text[a..b]),
         "signature":real,"transforms":fired,"template":template_name});
     ctx.record.push(rec);
+    ctx.splits.push_str(&split_text);
     Ok(body)
 }
 
@@ -979,6 +1046,17 @@ fn process_template(ctx: &mut Ctx, name: &str, tpl: &str) -> R<String> {
     let mut pos = 0;
     loop {
         // next directive: `//@item` line or `{@body`
+        if let Some(i) = tpl[pos..].find("//@splits") {
+            let sp = pos + i;
+            let first_other = ["{@body", "//@item", "//@sig", "//@expect"].iter().filter_map(|k| tpl[pos..].find(k).map(|j| pos + j)).min();
+            if first_other.map_or(true, |o| sp < o) {
+                out.push_str(&tpl[pos..sp]);
+                out.push_str("// per-variant obligation split (generated; same real body under `requires *this is V`)");
+                out.push_str(&std::mem::take(&mut ctx.splits));
+                pos = sp + "//@splits".len();
+                continue;
+            }
+        }
         // `//@expect <file> :: "text"`: the source must still contain this text (guards hand-written stand-ins)
         if let Some(i) = tpl[pos..].find("//@expect") {
             let sp = pos + i;
@@ -1047,6 +1125,19 @@ fn process_template(ctx: &mut Ctx, name: &str, tpl: &str) -> R<String> {
             let header = lines.next().unwrap_or("").trim();
             let dir_lines: Vec<&str> = lines.collect();
             let body = fill_hole(ctx, name, tpl, next.0, header, &dir_lines)?;
+            // every extracted function gets its own prover bucket (parallelism; no semantic effect)
+            if std::env::var("VX_NO_SPINOFF").is_err() {
+                let fname = header.rsplit("::").next().unwrap_or("").trim();
+                let needle = format!("fn {fname}");
+                if let Some(i) = out.rfind(&needle) {
+                    // back up over `pub ` / `pub(crate) ` qualifiers on the same line
+                    let line_start = out[..i].rfind('\n').map_or(0, |j| j + 1);
+                    let prefix_ok = out[line_start..i].trim().is_empty() || out[line_start..i].trim() == "pub";
+                    if prefix_ok {
+                        out.insert_str(line_start, "#[verifier::spinoff_prover]\n");
+                    }
+                }
+            }
             out.push_str(&body);
             pos = end + 2;
         } else {
@@ -1099,7 +1190,7 @@ fn main() {
         }
         i += 1;
     }
-    let mut ctx = Ctx { repo, expanded, files: BTreeMap::new(), record: Vec::new() };
+    let mut ctx = Ctx { repo, expanded, files: BTreeMap::new(), record: Vec::new(), splits: String::new() };
     let mut all = String::new();
     for t in &templates {
         let tpl = match std::fs::read_to_string(t) {
